@@ -14,9 +14,12 @@ def main():
         tmp = tempfile.mkdtemp(prefix="gcmverif_patchrun_")
         try:
             shutil.copytree("/repo/gcmpy", os.path.join(tmp, "gcmpy"), ignore=shutil.ignore_patterns("__pycache__"))
-            r = subprocess.run(["git", "apply", "--unsafe-paths", "--directory", tmp, os.path.abspath(patch)], capture_output=True, text=True, cwd=tmp)
+            r = subprocess.run(["git", "apply", "--include=*/gcmpy/*", "--unsafe-paths", "--directory", tmp, os.path.abspath(patch)], capture_output=True, text=True, cwd=tmp)
             if r.returncode != 0:
                 print(f"{patch}: does not apply: {r.stderr[:200]}")
+                continue
+            if subprocess.run(["diff", "-rq", "/repo/gcmpy", os.path.join(tmp, "gcmpy")], capture_output=True).returncode == 0:
+                print(f"{patch}: changed nothing under gcmpy/")
                 continue
             alarms, und = [], []
             for p in check_mod.ALL:
